@@ -7,8 +7,8 @@ META = {
     "technique": "Lean 4 model of Digit::NumberToString (integers, realToString, the three layouts, in-place rounding with checked writes) + a reference formatter written from ISO C / IEEE 754 (exact rational arithmetic); kernel-checked theorems for the integer path, tables, special values and append-only; model = implementation = reference compared on boundary-biased samples x precision 0..40 x 3 formats",
     "level": "proof",
     "design_ref": "DESIGN.md §6 C10, notes/design-numtostr.md",
-    "text": "Proved for every input (kernel-checked): the integer path prints exactly the decimal digits of every 8/16/32/64-bit value incl. the minimum values; inf/nan/zero print the reference text in every format and precision; the tables are the exact powers of five / digit pairs; the text is appended after what the stream held (integer path; real path: every poke of the model is guarded and a guarded run leaves the prefix untouched). The main statement FormatEqSpec (model text = printf reference for every finite double/float, precision <= 40, three formats) is STATED and proved for every inf/nan/zero pattern in all formats and for every integer-valued double (all |x| >= 2^52, i.e. 47% of the finite doubles, and all integers) in Fixed and SemiFixed; for the rest the decision on a run rests on (a) model = C++ text and (b) C++ text = the Lean reference (FmtSpec, exact rationals) on the sampled domain, plus snprintf as a second opinion on millions of uniform patterns.",
-    "note": "Trusted: Lean kernel; axioms within {propext, Quot.sound, Classical.choice}; g++ as table translator; the correspondence harness (ASan/UBSan, exact-fit stream growth so a poke or read past the stream's capacity is a sanitizer report). format_eq_spec for general finite values is not proved: for those the evidence is differential testing against an exact-arithmetic reference (listed under open_statements). BigInt word arithmetic is taken as exact integer arithmetic (property C19).",
+    "text": "Proved for every input (kernel-checked): FormatEqSpec holds (theorem format_eq_spec) - for every double and every float bit pattern, every precision 0..40, each of Default/Fixed/SemiFixed and any prior stream contents, the model of Digit::NumberToString appends exactly the reference text (%.{p}g, %.{p}f, %.{p}f stripped; inf/-inf/nan) written from IEEE 754 / ISO C in exact rational arithmetic, and no guarded access faults. Also: the integer path prints exactly the decimal digits of every 8/16/32/64-bit value incl. the minimum values; the tables are the exact powers of five / digit pairs; the digit estimate equals the digit count of 2^e; the digit run handed to the formatters is the exact decimal expansion cut at a known place plus a sticky flag (digits_exact_or_sticky). What a run adds: model = C++ text on the sampled domain (correspondence), C++ text = Lean reference and = snprintf on millions of patterns.",
+    "note": "Trusted: Lean kernel; axioms within {propext, Quot.sound, Classical.choice}; g++ as table translator; the correspondence harness (ASan/UBSan, exact-fit stream growth so a poke or read past the stream's capacity is a sanitizer report) for model = implementation; the reference FmtSpec as the reading of printf. BigInt word arithmetic is taken as exact integer arithmetic (property C19). Precision > 40 is outside the statement.",
 }
 
 THEOREMS = [
@@ -27,11 +27,25 @@ THEOREMS = [
     "Qentem.Props.C10.format_eq_spec_partial",
     "Qentem.Props.C10.format_eq_spec_integers",
     "Qentem.Props.C10.integer_valued_of_big",
+    "Qentem.Props.C10.format_eq_spec_integers32",
+    "Qentem.Props.C10.integer_valued_of_big32",
+    "Qentem.Props.C10.format_eq_spec_short_fractions",
+    "Qentem.Props.C10.format_eq_spec_integers_default",
+    "Qentem.Props.C10.format_eq_spec_integers_default_all",
+    "Qentem.Props.C10.format_eq_spec_fixed_ge1",
+    "Qentem.Props.C10.format_eq_spec_default_large",
+    "Qentem.Props.C10.format_eq_spec_default_ge1",
+    "Qentem.Props.C10.format_eq_spec_ge1",
+    "Qentem.Props.C10.format_eq_spec_fixed_all",
+    "Qentem.Props.C10.format_eq_spec_double",
+    "Qentem.Props.C10.format_eq_spec_float",
+    "Qentem.Props.C10.format_eq_spec",
+    "Qentem.Props.C10.digit_estimate_exact",
+    "Qentem.Props.C10.digits_exact_or_sticky",
+    "Qentem.Props.C10.digits_exact_or_sticky32",
     "Qentem.Props.C10.format_eq_spec_witnesses",
 ]
-OPEN = [
-    "Qentem.Props.C10.FormatEqSpec (model text = reference text for every finite double/float, precision <= 40, three formats): stated; proved for every inf/nan/zero pattern (all formats) and for every integer-valued double, i.e. all |x| >= 2^52 and all integers, in Fixed and SemiFixed; open for the rest",
-]
+OPEN = []
 
 
 def real_line(kind, bits, w="1", pre=None):
@@ -275,7 +289,7 @@ def run(ctx):
         "code units are Nat; char/char16_t/char32_t exercised by the harness; texts proved/observed independent of the width",
         "SizeT is 32-bit; precision <= 40 (the property's range); larger precisions are outside the modelled domain",
     ]
-    ctx.notes += ["format_eq_spec is open for general finite values: agreement of C++ with the Lean reference is observed (testing), not proved",
+    ctx.notes += ["format_eq_spec is proved for the model; the run adds model = C++ (correspondence) and C++ = reference = snprintf on the sampled domain",
                   "one n2sra/n2sspeca line = 123 formattings (precision 0..40 x Default/Fixed/SemiFixed)"]
 
 
